@@ -31,7 +31,27 @@ func clockInit() {
 	clockOnce.Do(func() {
 		dateutil.StartSyncTime()
 		dateutil.StopSyncTime()
-		time.Sleep(5 * time.Millisecond)
+		// at most one tick can still be pending; the clock is ours once the ticker's goroutine is
+		// blocked on its (now silent) channel — looked up in the goroutine dump, not slept for
+		deadline := time.Now().Add(60 * time.Second)
+		for {
+			time.Sleep(2 * time.Millisecond)
+			var buf bytes.Buffer
+			pprof.Lookup("goroutine").WriteTo(&buf, 2)
+			blocked := false
+			for _, blk := range strings.Split(buf.String(), "\n\n") {
+				if strings.Contains(blk, "dateutil.clock.func1") {
+					head := blk
+					if i := strings.Index(blk, "\n"); i >= 0 {
+						head = blk[:i]
+					}
+					blocked = strings.Contains(head, "chan receive")
+				}
+			}
+			if blocked || time.Now().After(deadline) {
+				break
+			}
+		}
 		dateutil.SetDelta(0)
 	})
 }
@@ -110,7 +130,7 @@ var settleTimeouts int
 // waitParked returns when every logger's background goroutine has finished its start-up
 // cycle and sleeps (so that it does not act at a time of its own choosing in the next 10 s).
 func waitParked() {
-	deadline := time.Now().Add(5 * time.Second)
+	deadline := time.Now().Add(120 * time.Second) // bounds a hang only; a loaded machine just takes longer
 	for i := 0; ; i++ {
 		if parkedRuns() >= created {
 			return
@@ -180,6 +200,7 @@ type obs struct {
 	before   [][]string          // PROC/CLR ops: regular files before
 	panics   []string
 	hung     bool
+	disturbed bool // real-clock mode only: an operation was delayed by more than 1.5 s
 }
 
 type fakeConf struct {
@@ -420,14 +441,14 @@ ops:
 			if i%64 == 0 || len(c.Ops) > 300 {
 				// watchdog (a call that never returns holds the logger's locks): always for the long
 				// many-id histories, sampled elsewhere
-				g = vh.GuardTimeout(10*time.Second, func() { callLog(l, o.Meth, string(vh.UnHex(o.ID)), string(vh.UnHex(o.Msg))) })
+				g = vh.GuardTimeout(120*time.Second, func() { callLog(l, o.Meth, string(vh.UnHex(o.ID)), string(vh.UnHex(o.Msg))) })
 			} else {
 				g = vh.Guard(func() { callLog(l, o.Meth, string(vh.UnHex(o.ID)), string(vh.UnHex(o.Msg))) })
 			}
 			if g.Timeout {
 				ob.outs[i] = "timeout"
 				ob.hung = true
-				ob.panics = append(ob.panics, fmt.Sprintf("op %d %s: did not return within 10 s", i, o.Meth))
+				ob.panics = append(ob.panics, fmt.Sprintf("op %d %s: did not return within 120 s", i, o.Meth))
 				ob.curAt[i] = curName(l)
 				break ops
 			}
@@ -497,6 +518,13 @@ ops:
 			vh.Die("unknown op kind %q", o.Kind)
 		}
 		ob.curAt[i] = curName(l)
+		if realClock {
+			// virtual time = time.Now() + delta: if this operation was held up for seconds (loaded
+			// machine) its decisions are no longer those of the scripted instant
+			if d := dateutil.Now() - o.T; d > 1500 || d < -1500 {
+				ob.disturbed = true
+			}
+		}
 	}
 	for _, nme := range listRegular(logs) {
 		b, _ := os.ReadFile(filepath.Join(logs, nme))
